@@ -474,7 +474,9 @@ func genDF(c *Case, rng *vrt.Rand, tier string) func(r *Runner, i int) *Op {
 		case 1:
 			phase = 2
 			extras = 0
-			if tier != "thorough" {
+			if tier != "thorough" || rng.Chance(0.25) {
+				// (the thorough tier walks 19 end distances per run; a quarter of them also get the extras - staged
+				// flushes, reopens, further records - so that the sweep does not leave those paths out)
 				extras = rng.Range(0, 4)
 			}
 			if int(cur%blockSz) == p.start {
